@@ -15,7 +15,8 @@ Follows, branch by branch:
                                       `top.can_assign(bottom)` check; the constraint selection :139-159;
 * `remove_redundant_solutions`        typevar.py:163;
 * `TypeVarValue.get_inherent_bounds`, `.can_assign`, `.can_be_assigned`, `.make_bounds_map`
-                                      value.py:2183-2216 (bound generation for a non-TypeVar other side);
+                                      value.py:2183-2216 (bound generation, against a closed value and against
+                                      another `TypeVarValue`);
 * `unify_bounds_maps`                 value.py:2784 (per type variable: concatenation).
 
 The solver is parametrised by the assignability relation `le a b` = "`b.is_assignable(a, ctx)`"
@@ -193,6 +194,12 @@ def TV.accepts (tv : TV) (other : Ty) : Option (List Bound) :=
 /-- `TypeVarValue.can_be_assigned(left)` for a `left` that is not a type variable -/
 def TV.acceptedBy (tv : TV) (left : Ty) : Option (List Bound) :=
   makeBoundsMap le join (.upper left :: tv.inherent)
+
+/-- `TypeVarValue.can_assign(other)` and `.can_be_assigned(other)` for an `other` that is itself a
+`TypeVarValue` (value.py:2195, :2209): an equal one (`same`) needs no bounds; otherwise the inherent
+bounds of both, all filed under this type variable -/
+def TV.withTV (tv other : TV) (same : Bool) : Option (List Bound) :=
+  if same then some [] else makeBoundsMap le join (tv.inherent ++ other.inherent)
 
 end Solver
 
